@@ -3,6 +3,7 @@ import importlib
 
 # prop: (module, class, block size, quick runs, thorough runs)
 REGISTRY = {
+    'C01': ('sim.machines.store_data', 'DataStoreMachine', 64, 4000, 80000),
     'C03': ('sim.machines.store_geo', 'GeoStoreMachine', 64, 4000, 80000),
     'C05': ('sim.machines.listing', 'TableMachine', 32, 2000, 40000),
     'C06': ('sim.machines.listing', 'HistoryMachine', 64, 4000, 60000),
